@@ -23,7 +23,7 @@ import (
 // append the entry; a must-drop condition N (exactness) by a consistent path that appends it.
 
 func init() {
-	register(&Rule{ID: "SH-ROOTS", Floor: 5,
+	register(&Rule{ID: "SH-ROOTS", Floor: 7,
 		Doc: "path conditions of the collector's root-selection loop over the policy atoms (tagged, subject annotation, untagged collection on, grace period on, blob readable, blob recent): every path consistent with ‘tagged’, ‘untagged collection off’ or ‘recent within the grace period’ (entries other than referrers responses) appends the entry to the mark worklist; every path consistent with ‘untagged, collectable and old’ does not",
 		Run: runRoots})
 }
@@ -38,10 +38,13 @@ const (
 	atomG                 // grace period on (>= 0)
 	atomK                 // blobMeta of the entry succeeded
 	atomR                 // blob newer than the cut-off
+	atomE                 // the subject of a referrers response exists
+	atomW                 // referrers are kept with their subject (ReferrersWithSubj)
+	atomD                 // dangling referrers are collected (ReferrersDangling)
 	nAtoms
 )
 
-var rootAtomNames = [...]string{"annotations≠nil", "tagged", "referrers-response", "untagged-collection-on", "grace-on", "blob-readable", "recent"}
+var rootAtomNames = [...]string{"annotations≠nil", "tagged", "referrers-response", "untagged-collection-on", "grace-on", "blob-readable", "recent", "subject-exists", "referrers-with-subject", "dangling-collection-on"}
 
 type rootLits [nAtoms]int8 // 0 unknown, +1 true, -1 false
 
@@ -261,8 +264,15 @@ func runRoots(c *core.Ctx) {
 		case *ssa.UnOp:
 			if x.Op == token.MUL {
 				_, p := accessPath(x)
-				if len(p) > 0 && p[len(p)-1] == "Untagged" {
-					return atomU, pol, true
+				if len(p) > 0 {
+					switch p[len(p)-1] {
+					case "Untagged":
+						return atomU, pol, true
+					case "ReferrersWithSubj":
+						return atomW, pol, true
+					case "ReferrersDangling":
+						return atomD, pol, true
+					}
 				}
 			}
 		case *ssa.Call:
@@ -297,11 +307,66 @@ func runRoots(c *core.Ctx) {
 		return 0, 0, false
 	}
 
+	// the ‘subject exists’ variable: a boolean phi with a constant-false edge whose other operands derive from
+	// the digest parsed out of the entry's subject annotation (and the blobMeta lookup of that digest)
+	var fromSubject func(v ssa.Value, d int) bool
+	fromSubject = func(v ssa.Value, d int) bool {
+		if v == nil || d > 8 {
+			return false
+		}
+		switch x := an.Strip(v).(type) {
+		case *ssa.Lookup:
+			if ks, ok := constStringOf(x.Index); ok && ks == refSubj && entryPath(x.X, "Annotations") {
+				return true
+			}
+		case *ssa.Extract:
+			return fromSubject(x.Tuple, d+1)
+		case *ssa.Call:
+			for _, a := range x.Call.Args {
+				if fromSubject(a, d+1) {
+					return true
+				}
+			}
+		case *ssa.BinOp:
+			return fromSubject(x.X, d+1) || fromSubject(x.Y, d+1)
+		case *ssa.UnOp:
+			return fromSubject(x.X, d+1)
+		case *ssa.Phi:
+			for _, e := range x.Edges {
+				if fromSubject(e, d+1) {
+					return true
+				}
+			}
+		}
+		return false
+	}
+	isSubjExists := func(v ssa.Value) bool {
+		phi, ok := v.(*ssa.Phi)
+		if !ok {
+			return false
+		}
+		hasFalse := false
+		for _, e := range phi.Edges {
+			if bv, ok := an.ConstBool(e); ok && !bv {
+				hasFalse = true
+			}
+		}
+		return hasFalse && fromSubject(phi, 0)
+	}
+
 	// --- path enumeration over one iteration
 	type outcome struct {
 		lits     rootLits
-		appended bool
+		appended bool // the entry was appended to the mark worklist or attached to its subject (deferred root)
 		last     token.Pos
+	}
+	isDeferral := func(in ssa.Instruction) bool {
+		mu, ok := in.(*ssa.MapUpdate)
+		if !ok {
+			return false
+		}
+		ts := mu.Map.Type().String()
+		return strings.HasPrefix(ts, "map[") && strings.HasSuffix(ts, "types.Descriptor") && !strings.Contains(ts, "[]")
 	}
 	var outs []outcome
 	nPaths := 0
@@ -353,7 +418,7 @@ func runRoots(c *core.Ctx) {
 			}
 		}
 		for _, in := range b.Instrs {
-			if isWorkAppend(in) {
+			if isWorkAppend(in) || isDeferral(in) {
 				appended = true
 			}
 		}
@@ -366,6 +431,17 @@ func runRoots(c *core.Ctx) {
 		}
 		base, neg := an.CondBase(ifi.Cond)
 		if bv, ok := env2[base]; ok {
+			if isSubjExists(base) {
+				found[atomE] = true
+				v := int8(-1)
+				if bv {
+					v = 1
+				}
+				if lits[atomE] != 0 && lits[atomE] != v {
+					return
+				}
+				lits[atomE] = v
+			}
 			if neg {
 				bv = !bv
 			}
@@ -374,6 +450,31 @@ func runRoots(c *core.Ctx) {
 				si = 0
 			}
 			walk(b.Succs[si], b, lits, env2, appended, last, onPath)
+			return
+		}
+		if isSubjExists(base) {
+			found[atomE] = true
+			for _, val := range []bool{true, false} {
+				v := int8(-1)
+				if val {
+					v = 1
+				}
+				if lits[atomE] != 0 && lits[atomE] != v {
+					continue
+				}
+				l2 := lits
+				l2[atomE] = v
+				env3 := make(map[ssa.Value]bool, len(env2)+1)
+				for k, x := range env2 {
+					env3[k] = x
+				}
+				env3[base] = val
+				si := 1
+				if val != neg {
+					si = 0
+				}
+				walk(b.Succs[si], b, l2, env3, appended, ifi.Cond.Pos(), onPath)
+			}
 			return
 		}
 		if at, pol, ok := atomOf(ifi.Cond); ok {
@@ -446,6 +547,8 @@ func runRoots(c *core.Ctx) {
 		{"root:tagged", "a tagged entry is a root of the mark phase", mk(int(atomT), 1, int(atomS), -1), true, "safety"},
 		{"root:untagged-collection-off", "with untagged collection off every entry is a root", mk(int(atomU), -1, int(atomS), -1), true, "safety"},
 		{"root:recent", "an entry whose manifest is younger than the grace period is a root", mk(int(atomG), 1, int(atomK), 1, int(atomR), 1, int(atomS), -1), true, "safety"},
+		{"root:referrers-of-existing-subject", "a referrers response whose subject exists is a root or is attached to its subject (kept exactly when the subject is)", mk(int(atomS), 1, int(atomE), 1), true, "safety"},
+		{"root:referrers-dangling-off", "with dangling collection off every referrers response is a root or attached to its subject", mk(int(atomS), 1, int(atomD), -1), true, "safety"},
 		{"drop:no-grace", "an untagged entry is not a root when untagged collection is on and no grace period applies", mk(int(atomU), 1, int(atomT), -1, int(atomS), -1, int(atomG), -1), false, "exact"},
 		{"drop:old", "an untagged entry older than the grace period is not a root when untagged collection is on", mk(int(atomU), 1, int(atomT), -1, int(atomS), -1, int(atomG), 1, int(atomK), 1, int(atomR), -1), false, "exact"},
 	}
@@ -467,7 +570,7 @@ func runRoots(c *core.Ctx) {
 		if bad == nil {
 			c.Pass(q.key, h.Instrs[0].Pos(), "%s", fmt.Sprintf("%s: the %d of %d iteration paths of the root-selection loop of %s that are consistent with [%s] agree", q.text, nCons, len(outs), c.P.FuncName(fn), q.cond))
 		} else {
-			verb := "does not append the entry to the mark worklist"
+			verb := "neither appends the entry to the mark worklist nor attaches it to its subject"
 			if !q.root {
 				verb = "appends the entry to the mark worklist"
 			}
